@@ -142,6 +142,19 @@ func (w *World) Running(tok string) bool {
 	return s.started > s.finished
 }
 
+// RunningCount returns the number of handler executions in progress.
+func (w *World) RunningCount() int {
+	w.mu.Lock()
+	defer w.mu.Unlock()
+	n := 0
+	for _, s := range w.toks {
+		if s.started > s.finished {
+			n++
+		}
+	}
+	return n
+}
+
 func (w *World) Release(tok string) {
 	w.mu.Lock()
 	s := w.st(tok)
